@@ -72,6 +72,10 @@ def gen_cases(ctx):
         add("within-random", timeout_ms=rng.choice([100, 250, 1000]), jobs=jobs, allow=rng.random() < 0.5,
             cond=rng.choice([None, None, {"dur": "early", "exit": 0}, {"dur": "early", "exit": 1}]),
             before=[dict(early)] * rng.choice([0, 1]), after=[{"dur": "early", "exit": rng.choice([0, 3])}] * rng.choice([0, 1, 2]))
+    # the first write to the runner's output FAILS (a terminal that went away for a moment), the task goes on printing, then a command overruns:
+    # the run still ends within the bound (what the task reports after a failed write is not judged)
+    for shape in ("sleep", "busy"):
+        add("sink-fails", timeout_ms=300, jobs=[[dict(early), {"dur": shape, "exit": 0}]], sink_fails=True)
     # an early failure before the overrunning command: with allow_failure the overrun is still reached and fails the task
     for shape in shapes:
         for allow in (False, True):
@@ -91,7 +95,9 @@ def to_engine(ctx, c):
          "after": [cmd_text("a%d" % k, a) for k, a in enumerate(c["after"])],
          "condition": cmd_text("cond", c["cond"]) if c["cond"] else "",
          "variations": [{"V": str(v)} for v in range(nv)] if nv > 1 else None}
-    return {"id": c["id"], "dir": ctx.workdir, "tasks": [t], "plan": [{"op": "run", "tasks": [0]}], "format": "raw"}
+    if c.get("sink_fails"):
+        t["commands"] = ['echo "first line"; echo "second line"; ' + x for x in t["commands"]]
+    return {"id": c["id"], "dir": ctx.workdir, "tasks": [t], "plan": [{"op": "run", "tasks": [0]}], "format": "raw", "sink_fails": bool(c.get("sink_fails"))}
 
 
 def cli_cases(ctx):
@@ -238,6 +244,10 @@ def judge(ctx, cases, res, tag, workers):
         r = o["results"][0]
         wall = r["end_ms"] - r["start_ms"]
         info[c["id"]] = {"wall_ms": wall, "bound_ms": bound_ms(c), "err": r["err"], "errored": r["errored"], "trace": o.get("trace")}
+        if c.get("sink_fails"):
+            if wall > bound_ms(c):
+                info[c["id"]]["hung"] = True
+            continue
         try:
             ob = tasklib.coq_observed(r, o.get("trace") or [])
         except ValueError as e:
